@@ -178,6 +178,17 @@ static void values_case(uint64_t c) {
             vf::fail(("c15:value:asymmetric:" + std::string(a.Type() == b.Type() ? "same-kind" : "cross-kind")).c_str(),
                      "%s: a<b %d b>a %d | a>b %d b<a %d | a==b %d b==a %d", pairk.c_str(), lt, bgt, gt, blt, eq, beq);
         }
+        // a pointer-to-value on the left compares like the value it points to (every operator has that case)
+        {
+            V pa;
+            pa.SetPointerToValue(&a);
+            bool plt = pa < b, pgt = pa > b, peq = pa == b, ple = pa <= b, pge = pa >= b;
+            vf::count("value_pairs_through_pointer");
+            if (plt != lt || pgt != gt || peq != eq || ple != le || pge != ge) {
+                vf::fail("c15:value:pointer-operand-differs", "%s: direct < %d == %d > %d <= %d >= %d, through pointer < %d == %d > %d <= %d >= %d",
+                         pairk.c_str(), lt, eq, gt, le, ge, plt, peq, pgt, ple, pge);
+            }
+        }
         // numbers of one kind compare by magnitude
         if (a.Type() == b.Type() && a.IsNumber()) {
             bool e_lt = a.IsUInt64() ? a.GetUInt64() < b.GetUInt64() : (a.IsInt64() ? a.GetInt64() < b.GetInt64() : a.GetDouble() < b.GetDouble());
